@@ -260,6 +260,7 @@ def rectangle_integral(x, y):
     array([ 2.,  6.,  4.,  8., 10.])
 
     """
+    y = np.asarray(y, dtype=float)
     d = np.diff(x)
     return y[:-1] * d
 
@@ -288,6 +289,7 @@ def trapezoid_integral(x, y):
     array([ 4.,  5.,  6.,  9., 11.])
 
     """
+    y = np.asarray(y, dtype=float)
     return (y[:-1] + y[1:]) / 2 * np.diff(x)
 
 
